@@ -8,7 +8,7 @@ from props import c04
 from props.c01 import spec_terms
 
 TRUSTED = ['real-arithmetic semantics for the homogeneity / mirror / shift identities (rounding outside, as the statement says for shifts)',
-           'exactness for powers of two: each IEEE operation of the extracted DAG commutes with exact scaling absent over/underflow - decided per operation kind at F(5,11) (+, - in the quick tier; / and * with the side condition |fl(a*b)| >= 2*min_normal in the thorough tier); the DAG inherits it because the critical value does not depend on the data (checked: its arguments mention only the level and the count)',
+           'exactness for powers of two: each IEEE operation of the extracted DAG commutes with exact scaling absent over/underflow - decided per operation kind (+, - at F(5,11) in the quick tier; / at F(5,8) and * at F(4,8) in the thorough tier, * with the result at least twice the smallest normal)',
            'reordering: sums of a permutation are within the C08 bound of the same exact sums (reduction to C08)', 'paired = arithmetic on differences, geometric / harmonic = exp / reciprocal of arithmetic in the transformed space (C04, C05 term identities): their equivariance reduces to the arithmetic identities',
            'MIR call models listed under call_models_used', 'z3 5.1 nlsat / FP']
 
@@ -215,11 +215,16 @@ def unpaired(ctx, m):
 
 
 def ieee(ctx, m):
-    """fl(2a o 2b) = 2 fl(a o b) for o in {+,-} at F(5,11), all finite a, b with finite doubled operands/results (no underflow issue for + and -)."""
+    """fl(2a o 2b) = 2^k fl(a o b): + and - at F(5,11) (k = 1; no underflow issue); thorough tier: / at F(5,8) (k = 0, every finite a, nonzero b with
+    finite doubled operands) and * at F(4,8) (k = 2, when a or b is zero or |fl(ab)| >= 2 * the smallest normal: a product rounded up INTO the normal
+    range from below is the one place where scaling and rounding do not commute). F(5,11) for * and / does not finish in 900 s."""
     thorough = ctx.tier == 'thorough'
-    FS = '(_ FloatingPoint 5 11)'
-    two = '((_ to_fp 5 11) RNE 2.0)'
-    for op in ['add', 'sub'] + (['div', 'mul'] if thorough else []):
+    jobs = [('add', 5, 11), ('sub', 5, 11)] + ([('div', 5, 8), ('mul', 4, 8)] if thorough else [])
+    for op, eb, sb in jobs:
+        FS = '(_ FloatingPoint %d %d)' % (eb, sb)
+        two = '((_ to_fp %d %d) RNE 2.0)' % (eb, sb)
+        four = '((_ to_fp %d %d) RNE 4.0)' % (eb, sb)
+        minn = '(fp #b0 #b%s #b%s)' % ('0' * (eb - 1) + '1', '0' * (sb - 1))
         lines = ['(declare-const a %s)' % FS, '(declare-const b %s)' % FS,
                  '(define-fun fin ((x %s)) Bool (not (or (fp.isNaN x) (fp.isInfinite x))))' % FS,
                  '(define-fun a2 () %s (fp.mul RNE %s a))' % (FS, two), '(define-fun b2 () %s (fp.mul RNE %s b))' % (FS, two),
@@ -229,13 +234,12 @@ def ieee(ctx, m):
                       '(assert (fin r2))', '(assert (not (fp.eq r2 (fp.mul RNE %s r))))' % two]
         elif op == 'div':
             lines += ['(define-fun r () %s (fp.div RNE a b))' % FS, '(define-fun r2 () %s (fp.div RNE a2 b2))' % FS, '(assert (not (fp.isZero b)))',
-                      '(assert (or (fp.isZero r) (fp.isNormal r)))', '(assert (not (fp.eq r2 r)))']
+                      '(assert (not (fp.eq r2 r)))']
         else:
-            four = '((_ to_fp 5 11) RNE 4.0)'
             lines += ['(define-fun r () %s (fp.mul RNE a b))' % FS, '(define-fun r2 () %s (fp.mul RNE a2 b2))' % FS, '(assert (fin r2))',
-                      '(assert (or (fp.isZero r) (fp.geq (fp.abs r) (fp.mul RNE %s (fp #b0 #b00001 #b0000000000)))))' % two, '(assert (not (fp.eq r2 (fp.mul RNE %s r))))' % four]
+                      '(assert (or (fp.isZero a) (fp.isZero b) (fp.geq (fp.abs r) (fp.mul RNE %s %s))))' % (two, minn), '(assert (not (fp.eq r2 (fp.mul RNE %s r))))' % four]
         text = '\n'.join(lines) + '\n(check-sat)\n'
-        fut = m.pool.submit(text, 'z3-new', 900 if thorough else 120, ctx.seed)
-        m.pending.append({'name': 'C16:ieee-scaling:%s:F(5,11)' % op, 'fut': fut, 'expect': 'unsat', 'key': 'C16:ieee-scaling', 'sem': ('F', 5, 11), 'note': 'fl(2a %s 2b) = 2^k fl(a %s b), all finite operands' % (op, op),
-                          'text': text, 'on_sat': None, 'timeout': 900, 'solver': 'z3-new'})
+        fut = m.pool.submit(text, 'z3-new', 300, ctx.seed)
+        m.pending.append({'name': 'C16:ieee-scaling:%s:F(%d,%d)' % (op, eb, sb), 'fut': fut, 'expect': 'unsat', 'key': 'C16:ieee-scaling', 'sem': ('F', eb, sb),
+                          'note': 'fl(2a %s 2b) = 2^k fl(a %s b), all finite operands' % (op, op), 'text': text, 'on_sat': None, 'timeout': 300, 'solver': 'z3-new'})
     m.collect()
